@@ -37,6 +37,8 @@ type clScenario struct {
 	Replicas   int      `json:"replicas"`
 	Steps      []rsStep `json:"steps"`
 	HasTraffic bool     `json:"hasTraffic"`
+	// DisableGenerateCanaryService (only set by the traffic scenarios of suite closedloop)
+	DisableGen bool `json:"disableGen,omitempty"`
 }
 
 type clSim struct {
@@ -60,7 +62,7 @@ var clRoKey = types.NamespacedName{Namespace: trNS, Name: "r"}
 var clWlKey = types.NamespacedName{Namespace: trNS, Name: "wl"}
 
 func clNewSim(c *Ctx, sc clScenario) *clSim {
-	ro, hash := rsBuildRollout(rsRollout{Style: "canary", Steps: sc.Steps, HasTraffic: sc.HasTraffic, Grace: trLongGrace, Reason: "none", Term: "none", RealPartition: true})
+	ro, hash := rsBuildRollout(rsRollout{Style: "canary", Steps: sc.Steps, HasTraffic: sc.HasTraffic, DisableGen: sc.DisableGen, Grace: trLongGrace, Reason: "none", Term: "none", RealPartition: true})
 	ro.Status = v1beta1.RolloutStatus{}
 	cs := rsBuildCloneSet(&rsWL{Consistent: true, CanaryRev: "v1", StableRev: "v1", Replicas: sc.Replicas, Generation: 1})
 	cs.Status.UpdatedReadyReplicas = int32(sc.Replicas)
@@ -208,6 +210,11 @@ func (s *clSim) recRollout(failAt int) {
 	}
 	after, ok2 := s.world()
 	out["roGone"] = !ok2
+	// the one-step suite reports the workload as it was given, with only the in-progress annotation read back (a derived
+	// flag such as "in rollback" is an input of the reconcile, not something it writes)
+	if before.WL != nil && after.WL != nil {
+		after.WL.InRollback = before.WL.InRollback
+	}
 	wj := J{"wl": after.WL, "br": after.BR, "net": after.Net, "mem": after.Mem}
 	if ok2 {
 		// output canonicalisation of an illegal next-step index (see suite_rolloutsm)
